@@ -79,6 +79,8 @@ def _cases(tier):
     for op in OPS:
         for kind in ("ident", "badcopy"):
             cases.append({"nocopy": kind, "op": op})
+        for mut in ("v.items.append(3)", "v.items.clear()", ""):
+            cases.append({"nocopy": "locked", "op": op, "mut": mut})
     # a value that cannot be copied arrives under a new key of a sub-snapshot that already has content (and next to other new keys)
     for kind in ("ident", "badcopy"):
         for prev in ("{'a': 1}", "{'a': 1, 'b': [2]}", "{'a': {'x': 1}}"):
@@ -111,6 +113,8 @@ NOCOPY = (
 
 HASHMUT = (
     "@dataclass(unsafe_hash=True)\nclass HDC:\n    x: int\n    y: int = 0\n\n\n"
+    "import threading\n\n\n@dataclass\nclass Locked:\n    items: list\n    lock: object = field(default_factory=threading.Lock, repr=False, compare=False)\n"
+    "    def __le__(self, o):\n        return self.items <= o.items\n    def __ge__(self, o):\n        return self.items >= o.items\n    __hash__ = None\n\n\n"
     "class Job:\n    def __init__(self, name, state):\n        self.name = name\n        self.state = state\n"
     "    def __eq__(self, o):\n        return (self.name, self.state) == (o.name, o.state) if isinstance(o, Job) else NotImplemented\n"
     "    def __hash__(self):\n        return hash(self.name)\n    def __repr__(self):\n        return 'Job(%r, %r)' % (self.name, self.state)\n\n\n"
@@ -134,6 +138,9 @@ def _site(i, c):
             lines.append(c["extra"])
         lines.append("assert s['k'] == v")
         return "def test_%d():\n" % i + "".join("    " + l + "\n" for l in lines)
+    if c.get("nocopy") == "locked":
+        # a value that owns something which cannot be deep-copied (a lock) next to a list that is modified after the comparison
+        return "def test_%d():\n    v = Locked(items=[1, 2])\n    s = snapshot()\n    %s\n    %s\n" % (i, _cmp(c["op"]), c["mut"] or "pass")
     if "nocopy" in c:
         init = "Ident()" if c["nocopy"] == "ident" else "BadCopy(1)"
         return "def test_%d():\n    v = %s\n    s = snapshot()\n    %s\n" % (i, init, _cmp(c["op"]))
@@ -300,6 +307,16 @@ def _judge(cases):
                     out.append(("non-copyable-value-recorded", "snapshot(%s) -> snapshot(%s)" % (c["prev"], calls[i]["arg_text"][:120])))
                 elif "UsageError" not in raised:
                     out.append(("no-usage-error-for-non-copyable-value", raised[:200]))
+                else:
+                    out.append(None)
+                continue
+            if c["nocopy"] == "locked":
+                # either the value is rejected (exception, nothing written) or what is written is the comparison-time value
+                txt = calls[i]["arg_text"].strip()
+                if txt in ("", "{}"):
+                    out.append(None if raised else ("no-usage-error-for-non-copyable-value", "nothing written and no exception"))
+                elif "3" in txt or ("[1, 2]" not in txt):
+                    out.append(("recorded-value-differs-from-comparison-time-value", "wrote snapshot(%s) for Locked(items=[1, 2]) modified by %r after the comparison" % (txt[:120], c["mut"])))
                 else:
                     out.append(None)
                 continue
